@@ -184,3 +184,221 @@ def run_schedule(kinds: dict[str, str], expires: int, steps: list, *, follow_pc=
                 "errors": {k: repr(v) for k, v in w.sched.errors.items()}, "live": len(w.registry)}
     finally:
         w.restore()
+
+
+# ------------------------------------------------------------------------------------------------
+# Sequential multi-worker world for C25/C27 (no thread scheduling; the scheduler only serves the clock)
+# ------------------------------------------------------------------------------------------------
+IDENT = {"anon": None, "A": ("a", "bc"), "B": ("ab", "c"), "C": ("", "anonymous")}
+
+
+class SeqWorld:
+    """Two workers sharing one key (different server ids) + header-selected identities + logical clock."""
+
+    def __init__(self, ttl: float = 1.5, key: bytes = b"k" * 32) -> None:
+        from vgi_rpc.rpc import AuthContext
+
+        warnings.filterwarnings("ignore")
+        self.sched = Scheduler()
+        S.threading = self.sched.threading_shim()
+        S.time = self.sched.time_shim()
+        self.log: list[tuple] = []          # (worker, method, session marker)
+        self.closed: list[str] = []         # markers of sessions whose hook ran
+        w = self
+
+        class State:
+            def __init__(self, marker: str) -> None:
+                self.marker = marker
+
+            def close(self) -> None:
+                w.closed.append(self.marker)
+
+        def make_impl(worker: str):
+            class Impl:
+                def open_s(self, marker: str, ctx: CallContext) -> int:
+                    ctx.open_session(State(marker))
+                    return 1
+
+                def use(self, ctx: CallContext) -> int:
+                    s = ctx.session
+                    w.log.append((worker, "use", getattr(s, "marker", None)))
+                    return 2
+
+                def use_close(self, ctx: CallContext) -> int:
+                    s = ctx.session
+                    w.log.append((worker, "use_close", getattr(s, "marker", None)))
+                    ctx.close_session()
+                    return 3
+            return Impl()
+
+        def authenticate(req):
+            h = req.get_header("X-Ident")
+            if not h:
+                return AuthContext.anonymous()
+            d, p = IDENT[h]
+            return AuthContext(domain=d, authenticated=True, principal=p)
+
+        self.apps, self.clients, self.regs = {}, {}, {}
+        for wk, sid in (("mint", "w-mint"), ("other", "w-other")):
+            server = RpcServer(SeqSvc, make_impl(wk), server_id=sid)
+            app = make_wsgi_app(server, token_key=key, enable_sticky=True, sticky_default_ttl=ttl,
+                                authenticate=authenticate)
+            for group in getattr(app, "_middleware", ()):
+                for bm in group:
+                    owner = getattr(bm, "__self__", None)
+                    if isinstance(owner, S._StickyMiddleware):
+                        owner._reaper = _DummyReaper()
+                        self.regs[wk] = owner._registry
+            self.apps[wk] = app
+            self.clients[wk] = falcon.testing.TestClient(app)
+        self._n = 0
+
+    def restore(self) -> None:
+        S.threading = _REAL_THREADING
+        S.time = _REAL_TIME
+
+    def hdr(self, ident: str, extra: dict | None = None) -> dict:
+        h = {"Content-Type": world.ARROW_CT}
+        if ident != "anon":
+            h["X-Ident"] = ident
+        h.update(extra or {})
+        return h
+
+    def call(self, worker: str, method: str, ident: str, token: str | None = None, accept: bool = False,
+             args: dict | None = None, schema=None):
+        schema = schema or pa.schema([])
+        body = world.raw_request(method.encode(), schema, args or {})
+        extra = {}
+        if token is not None:
+            extra["VGI-Session"] = token
+        if accept:
+            extra["VGI-Session-Accept"] = "true"
+        r = self.clients[worker].simulate_post(f"/{method}", body=body, headers=self.hdr(ident, extra))
+        err = None
+        if r.headers.get("content-type", "").startswith(world.ARROW_CT):
+            for s in world.read_streams(r.content):
+                err = err or world.error_of(s)
+        return r, err
+
+    def delete(self, worker: str, ident: str, token: str | None):
+        extra = {} if token is None else {"VGI-Session": token}
+        return self.clients[worker].simulate_delete("/__session__", headers=self.hdr(ident, extra))
+
+    def open(self, worker: str, ident: str) -> tuple[str, str]:
+        self._n += 1
+        marker = f"s{self._n}"
+        schema = pa.schema([pa.field("marker", pa.string(), nullable=False)])
+        r, err = self.call(worker, "open_s", ident, accept=True, args={"marker": marker}, schema=schema)
+        assert r.status_code == 200 and err is None, (r.status_code, err)
+        return r.headers["VGI-Session"], marker
+
+
+class SeqSvc(Protocol):
+    def open_s(self, marker: str) -> int: ...
+    def use(self) -> int: ...
+    def use_close(self) -> int: ...
+
+
+# ------------------------------------------------------------------------------------------------
+# C27: one worker, scripted methods, the real client session view
+# ------------------------------------------------------------------------------------------------
+class LifeSvc(Protocol):
+    def run(self, script: str) -> str: ...
+    def whoami(self) -> int: ...
+
+
+class LifeWorld:
+    def __init__(self, key: bytes = b"k" * 32) -> None:
+        from vgi_rpc.http import _SyncTestClient, drain_handle, http_connect
+
+        warnings.filterwarnings("ignore")
+        self.opened: list[int] = []
+        self.closed: list[int] = []
+        w = self
+
+        class State:
+            def __init__(self, idx: int) -> None:
+                self.idx = idx
+
+            def close(self) -> None:
+                w.closed.append(self.idx)
+
+        class Impl:
+            def run(self, script: str, ctx: CallContext) -> str:
+                for ch in script:
+                    if ch == "o":
+                        idx = len(w.opened) + 1
+                        ctx.open_session(State(idx))
+                        w.opened.append(idx)
+                    elif ch == "c":
+                        ctx.close_session()
+                    elif ch == "u":
+                        if ctx.session is None:
+                            raise LookupError("no session bound")
+                return "ok"
+
+            def whoami(self, ctx: CallContext) -> int:
+                s = ctx.session
+                return 0 if s is None else s.idx
+
+        self.server = RpcServer(LifeSvc, Impl())
+        self.app = make_wsgi_app(self.server, token_key=key, enable_sticky=True, sticky_default_ttl=3600.0)
+        self.handle = drain_handle(self.app)
+        self.sync = _SyncTestClient(self.app)
+        self._cm = http_connect(LifeSvc, client=self.sync)
+        self.conn = self._cm.__enter__()
+        self._vcm = self.conn.with_session_token()
+        self.view = self._vcm.__enter__()
+        self.raw = falcon.testing.TestClient(self.app)
+
+    def close(self) -> None:
+        try:
+            self._vcm.__exit__(None, None, None)
+            self._cm.__exit__(None, None, None)
+        finally:
+            if self.handle is not None:
+                self.handle.shutdown()
+            for group in getattr(self.app, "_middleware", ()):
+                for bm in group:
+                    owner = getattr(bm, "__self__", None)
+                    if isinstance(owner, S._StickyMiddleware):
+                        owner.stop_reaper()
+
+    def live(self) -> list[int]:
+        return sorted(set(self.opened) - set(self.closed))
+
+    def view_session(self) -> int:
+        """Which session the client's view token resolves to: 0 none, -1 dead token."""
+        tok = self.view.current_session_token()
+        if tok is None:
+            return 0
+        body = world.raw_request(b"whoami", pa.schema([]), {})
+        r = self.raw.simulate_post("/whoami", body=body, headers={"Content-Type": world.ARROW_CT, "VGI-Session": tok})
+        for s in world.read_streams(r.content):
+            if world.error_of(s):
+                return -1
+            for b, _md in s["batches"]:
+                if b.num_rows == 1:
+                    return int(b.column(0)[0].as_py())
+        return -1
+
+    def request(self, script: str, via: str) -> str:
+        from vgi_rpc.rpc import RpcError
+
+        target = self.view if via == "view" else self.conn
+        try:
+            target.run(script=script)
+            return "ok"
+        except RpcError as e:
+            t, m = e.error_type, str(e)
+            if t == "ServerDrainingError":
+                return "server_draining"
+            if t == "SessionLostError":
+                return "session_lost"
+            if t == "LookupError":
+                return "no_session"
+            if "opt in" in m:
+                return "no_optin"
+            if "already active" in m:
+                return "already_bound"
+            return f"other:{t}"
